@@ -101,6 +101,7 @@ PROPS = {
             {'engine': 'verus', 'name': 'iterator_source', 'tier': 'quick', 'role': 'IteratorSource::{next,replication}: every item of the iterator once, in order, then one FlushAndRestart, then Terminate forever; a single replica'},
             {'engine': 'verus', 'name': 'chain_ops', 'tier': 'quick', 'role': 'Map/KeyBy/FilterMap/Filter/Inspect::next and StreamElement::map: one output per surviving input in pull order, kind and timestamp kept, control elements (Watermark, FlushBatch, FlushAndRestart, Terminate) pass through unchanged and are never created or swallowed; filters drop exactly the rejected data elements'},
             {'engine': 'verus', 'name': 'sinks', 'tier': 'quick', 'role': 'ForEach / CollectCountSink / CollectChannelSink::next: every data element consumed exactly once in arrival order (closure call log, running count, channel log); result published / channel closed exactly at Terminate; control elements forwarded unchanged'},
+            {'engine': 'verus', 'name': 'flat_map', 'tier': 'quick', 'role': "FlatMap::next: the items of an input element leave one per call in order, stamped with that element's timestamp; the next input is pulled only when the iterator is exhausted, so control elements (Watermark) leave unchanged and only after every derived item"},
         ],
         'explanation': 'Verus proof of the per-call contract of Start::next (any number of upstream replicas, any batches): FlushAndRestart is returned exactly when every '
                        'upstream FlushAndRestart of the iteration was consumed (and the per-iteration state restarts), Terminate exactly when every upstream Terminate was consumed, '
@@ -118,6 +119,7 @@ PROPS = {
             {'engine': 'verus', 'name': 'iterator_source', 'tier': 'quick', 'role': 'IteratorSource::{next,replication}: every item of the iterator once, in order, then one FlushAndRestart, then Terminate forever; a single replica'},
             {'engine': 'verus', 'name': 'chain_ops', 'tier': 'quick', 'role': 'Map/KeyBy/FilterMap/Filter/Inspect::next and StreamElement::map: one output per surviving input in pull order, kind and timestamp kept, control elements (Watermark, FlushBatch, FlushAndRestart, Terminate) pass through unchanged and are never created or swallowed; filters drop exactly the rejected data elements'},
             {'engine': 'verus', 'name': 'sinks', 'tier': 'quick', 'role': 'ForEach / CollectCountSink / CollectChannelSink::next: every data element consumed exactly once in arrival order (closure call log, running count, channel log); result published / channel closed exactly at Terminate; control elements forwarded unchanged'},
+            {'engine': 'verus', 'name': 'flat_map', 'tier': 'quick', 'role': "FlatMap::next: the items of an input element leave one per call in order, stamped with that element's timestamp; the next input is pulled only when the iterator is exhausted, so control elements (Watermark) leave unchanged and only after every derived item"},
         ],
         'explanation': 'order preservation along a single-replica path: Batcher view equation (Verus), Start::next stream equation (nothing lost, duplicated or reordered between link and chain), End::next appends in arrival order.',
         'assumptions': ['reorder() and sinks/sources: see unit list'],
@@ -147,6 +149,7 @@ PROPS = {
             {'engine': 'verus', 'name': 'window_operator', 'tier': 'quick', 'role': 'WindowOperator::next: a data element goes to the manager of its key only (created from init on first use), its results are queued with that key; a control element goes to every manager and is queued AFTER all their results; recycled managers are dropped; the queue is served in order'},
             {'engine': 'verus', 'name': 'add_timestamps', 'tier': 'quick', 'role': "AddTimestamp::next: item stamped with the generator's timestamp, the generator's watermark leaves in the very next call before anything else is pulled, control elements pass through unchanged; DropTimestamp::next: watermarks absorbed, timestamps stripped, the rest unchanged"},
             {'engine': 'verus', 'name': 'chain_ops', 'tier': 'quick', 'role': 'Map/KeyBy/FilterMap/Filter/Inspect::next and StreamElement::map: one output per surviving input in pull order, kind and timestamp kept, control elements (Watermark, FlushBatch, FlushAndRestart, Terminate) pass through unchanged and are never created or swallowed; filters drop exactly the rejected data elements'},
+            {'engine': 'verus', 'name': 'flat_map', 'tier': 'quick', 'role': "FlatMap::next: the items of an input element leave one per call in order, stamped with that element's timestamp; the next input is pulled only when the iterator is exhausted, so control elements (Watermark) leave unchanged and only after every derived item"},
         ],
         'explanation': 'per-operator watermark contracts proved on the real next() functions (Verus, unbounded) plus the frontier / event-time window contracts (Kani single-call harnesses, bounded state size).',
         'assumptions': ['W_in: the operator input respects the watermark contract', 'Fold/KeyedFold/FlatMap/AddTimestamp/WindowOperator wiring: see unit list'],
